@@ -4,8 +4,9 @@ CONSTANTS MaxRound = 2
  MaxHyps = 2
  N = 2
  EmitRejected = TRUE
+ Focus = FALSE
 INVARIANT AllWellTyped
-INVARIANT AllExaminable
+
 INVARIANT AllValid
 INVARIANT NoFalse
 INVARIANT NonVacuous
